@@ -40,8 +40,21 @@ func BuildQueryInt(asserts []*Term, ia *Intervals) *Query {
 		iv := ia.Of(v)
 		fmt.Fprintf(&out, "(assert (and (<= %s %s) (<= %s %s)))\n", intLit(int64(iv.Lo)), symName(v.Name), symName(v.Name), intLit(int64(iv.Hi)))
 	}
+	for _, d := range p.ufDecls {
+		out.WriteString(d)
+	}
 	for _, a := range asserts {
 		p.define(a)
+	}
+	for _, t := range p.roots {
+		if t.W > 0 {
+			iv := ia.Of(t)
+			p.sb.WriteString("(assert (and (<= " + intLit(int64(iv.Lo)) + " ")
+			p.expr(t, false)
+			p.sb.WriteString(") (<= ")
+			p.expr(t, false)
+			p.sb.WriteString(" " + intLit(int64(iv.Hi)) + ")))\n")
+		}
 	}
 	for _, a := range asserts {
 		p.sb.WriteString("(assert ")
@@ -50,6 +63,7 @@ func BuildQueryInt(asserts []*Term, ia *Intervals) *Query {
 	}
 	q.Text = out.String() + p.sb.String()
 	q.IntMode = true
+	q.Abstracted = len(p.roots) > 0
 	return q
 }
 
@@ -64,12 +78,16 @@ func intLit(v int64) string {
 var DebugInt func(string)
 
 type intPrinter struct {
-	why   string
-	ia    *Intervals
-	refs  map[uint64]int
-	named map[uint64]bool
-	vars  map[*Term]bool
-	sb    strings.Builder
+	abs     map[uint64]*island
+	ufs     map[string]string
+	ufDecls []string
+	roots   []*Term
+	why     string
+	ia      *Intervals
+	refs    map[uint64]int
+	named   map[uint64]bool
+	vars    map[*Term]bool
+	sb      strings.Builder
 }
 
 func (p *intPrinter) nonneg(t *Term) bool {
@@ -87,10 +105,70 @@ func (p *intPrinter) count(t *Term) bool {
 		p.why = "float or wide term"
 		return false
 	}
+	if isIslandRoot(t) {
+		// a float computation with integer inputs and a non-float result: an
+		// uninterpreted function of the inputs (see BuildQueryAbstractFP)
+		if t.W > 0 {
+			if iv := p.ia.Of(t); !iv.OK {
+				p.why = "no interval for float->int result " + t.String()
+				return false
+			}
+		}
+		is := (&printer{}).fpIsland(t)
+		for _, l := range is.leaves {
+			if l.W == FP64 {
+				p.why = "float input"
+				return false
+			}
+			if !p.count(l) {
+				return false
+			}
+		}
+		if p.abs == nil {
+			p.abs, p.ufs = map[uint64]*island{}, map[string]string{}
+		}
+		p.abs[t.ID] = is
+		p.roots = append(p.roots, t)
+		if _, ok := p.ufs[is.shape]; !ok {
+			name := fmt.Sprintf("fpabs!%d", len(p.ufs))
+			p.ufs[is.shape] = name
+			var sb strings.Builder
+			fmt.Fprintf(&sb, "(declare-fun %s (", name)
+			for _, l := range is.leaves {
+				if l.W == 0 {
+					sb.WriteString("Bool ")
+				} else {
+					sb.WriteString("Int ")
+				}
+			}
+			if t.W == 0 {
+				sb.WriteString(") Bool)\n")
+			} else {
+				sb.WriteString(") Int)\n")
+			}
+			p.ufDecls = append(p.ufDecls, sb.String())
+		}
+		return true
+	}
 	if t.W > 0 {
 		if iv := p.ia.Of(t); !iv.OK {
 			if p.why == "" {
-				p.why = "no interval for " + t.String()
+				// report the deepest sub-term without an interval
+				d := t
+				for {
+					var next *Term
+					for i := 0; i < d.N; i++ {
+						if c := d.A[i]; c.W > 0 && c.W <= 64 && !p.ia.Of(c).OK {
+							next = c
+							break
+						}
+					}
+					if next == nil {
+						break
+					}
+					d = next
+				}
+				p.why = "no interval for " + d.String()
 			}
 			return false
 		}
@@ -126,6 +204,12 @@ func (p *intPrinter) count(t *Term) bool {
 			return false
 		}
 	}
+	if t.Op == OSDiv || t.Op == OSRem {
+		// the truncated-division expansion mentions each operand several times:
+		// make sure non-trivial operands get a name instead of being copied
+		p.refs[t.A[0].ID] += 2
+		p.refs[t.A[1].ID] += 2
+	}
 	return true
 }
 
@@ -133,8 +217,14 @@ func (p *intPrinter) define(t *Term) {
 	if t.Op == OVar || t.Op == OConst || p.named[t.ID] {
 		return
 	}
-	for i := 0; i < t.N; i++ {
-		p.define(t.A[i])
+	if is := p.abs[t.ID]; is != nil {
+		for _, l := range is.leaves {
+			p.define(l)
+		}
+	} else {
+		for i := 0; i < t.N; i++ {
+			p.define(t.A[i])
+		}
 	}
 	if p.refs[t.ID] > 1 || t.size > 200 {
 		srt := "Int"
@@ -159,6 +249,19 @@ func (p *intPrinter) bin(op string, t *Term) {
 func (p *intPrinter) expr(t *Term, top bool) {
 	if !top && p.named[t.ID] {
 		fmt.Fprintf(&p.sb, "t!%d", t.ID)
+		return
+	}
+	if is := p.abs[t.ID]; is != nil {
+		if len(is.leaves) == 0 {
+			p.sb.WriteString(p.ufs[is.shape])
+			return
+		}
+		p.sb.WriteString("(" + p.ufs[is.shape])
+		for _, l := range is.leaves {
+			p.sb.WriteByte(' ')
+			p.expr(l, false)
+		}
+		p.sb.WriteByte(')')
 		return
 	}
 	switch t.Op {
